@@ -12,6 +12,7 @@ from vlib.runner import Eval
 
 ID = "C02"
 LEVEL = "exploration"
+CGF_RUNS = {"thorough": 6000}  # coverage-guided stage (vlib/cgf.py): libFuzzer executions per worker, 16 workers
 RULE = (
     "Three case shapes (drawn first): 'sandwich' rules A, X<times>, B on listings A X^r B with r drawn around both bounds "
     "(min-1, min, max, max+1, random); 'free' rules from the describe-a-window generator with times on items and groups; 'meta' pairs "
